@@ -97,7 +97,25 @@ def analyse(facts, tier):
                 keydown_true = any(is_none_test(y) for y in disj)
                 probes['keydown_disjuncts'] = [show(y) for y in disj]
                 # the other disjuncts must say "the key is still down": the negated is_end() of a find_activenote() result
-                probes['keydown_by_lookup'] = any(y.get('k') == 'UnaryOperator' and y.get('op') == '!' and short(callee_name(strip(y.get('e')))) == 'is_end' for y in disj)
+                # the other disjunct says "the key is still down": the active note of that key exists (negated is_end() of the
+                # find_activenote() result) AND it sounds on this very chip channel (phys_find(c) on it) - a re-struck key has an
+                # active note as well, but on another chip channel.  The disjunct may be a local flag defined that way.
+                def resolve(y):
+                    y = strip(y)
+                    if y.get('k') == 'DeclRefExpr' and not y.get('parm'):
+                        for b_, j_, st_ in g.cfg.stmts():
+                            if st_['s'].get('k') == 'DeclStmt':
+                                for v_ in st_['s']['decls']:
+                                    if v_['id'] == y.get('id') and v_.get('init') is not None:
+                                        return strip(v_['init'])
+                    return y
+                cpar = g.params[0]['id']
+                def lookup_ok(y):
+                    y = resolve(y)
+                    has_found = any(isinstance(z, dict) and z.get('k') == 'UnaryOperator' and z.get('op') == '!' and short(callee_name(strip(z.get('e')))) == 'is_end' for z in walk(y))
+                    on_chan = any(isinstance(z, dict) and 'callee' in z and short(callee_name(z)) == 'phys_find' and any(isinstance(w, dict) and w.get('id') == cpar for a_ in z.get('a', []) for w in walk(a_)) for z in walk(y))
+                    return has_found and on_chan
+                probes['keydown_by_lookup'] = any(lookup_ok(y) for y in disj if not is_none_test(y))
                 a, b2 = e_.ev(c['l'], s1), e_.ev(c['r'], s2)
                 probes['dec']['key-down' if keydown_true else 'pedal-held'] = a
                 probes['dec']['pedal-held' if keydown_true else 'key-down'] = b2
@@ -156,8 +174,8 @@ def analyse(facts, tier):
                     'a pedal-held note (score down to %d) is not always taken before a key-down note (score up to %d)' % (min_ped1, max_key1), detail=detail))
     okl = bool(probes.get('keydown_by_lookup'))
     obls.append(Obl('C06.R1', g.name, 'the pedal-held price needs a released key', g.loc, 'discharged' if okl else 'finding',
-                    why='the key-down arm is taken for sustained == None or when the note is still among the active notes: %s' % ' || '.join(probes.get('keydown_disjuncts', [])) if okl else
-                    'the cheap pedal-held price is charged for every user with a sustain mark: a sostenuto-marked note whose key is still down competes with released pedal-held notes and is displaced first when it is older'))
+                    why='the key-down arm is taken for sustained == None or when the active note of that key sounds on this chip channel: %s' % ' || '.join(probes.get('keydown_disjuncts', [])) if okl else
+                    'the cheap pedal-held price does not depend on `the active note of this key sounds on this chip channel` (find_activenote + phys_find(c)): either a sostenuto-marked note whose key is still down is scored as released, or a released pedal-held note whose key was struck again elsewhere is scored as key-down'))
     ok = ped.lo > bonus and key.lo > bonus
     obls.append(Obl('C06.R1', g.name, 'each further user lowers the score', g.loc, 'discharged' if ok else 'finding',
                     why='per-user decrement >= %d exceeds the per-user bonus <= %d' % (min(ped.lo, key.lo), bonus) if ok else 'a user can raise the score (decrement %d, bonus %d)' % (min(ped.lo, key.lo), bonus)))
